@@ -186,7 +186,7 @@ def run(ctx):
 
     n, rejected, tstates = linetrace.validate(
         ctx, "MC_Trace_LNC", TR, path, "tr_lnc", keyfn, what="connection trace",
-        segment_op="reset")
+        segment_op="reset", context_lines=4000)
     # the mailbox transport under GBN: what one end's GoBackNConn receives is
     # what the other end's handed over, in order, with losses and in-place
     # repetitions only (MailboxLink.tla's LossyFifo, the channel GBN.tla
